@@ -209,6 +209,41 @@ def h_binary(env, N, op, ka, kb, ksa, ksb):
         env.goal('left_operand_unchanged', AND(b_and(arr_eq(g, g), True) for g, p, c in ta) if False else True)
 
 
+def h_self(env, N, kind, op, T=2):
+    """the same object on both sides: A @ A, A + A, A - A  (fast paths keyed on `other is self` must still give the
+    operator square / double / zero for every phase)"""
+    M = Mods(env)
+    if kind == 'PauliPolynomial':
+        g = env.bits('a_gs', (T, 2 * N))
+        p = env.phases('a_ps', (T,))
+        A = M.pa.PauliPolynomial(g.copy(), p.copy())          # unit coefficients, all four phases per term
+        ta = [(g[k], p[k], (1, 0)) for k in range(T)]
+    else:
+        A, ta = mk_operand(env, M, N, kind, 'a_', [0])
+    va = coefvec(N, ta)
+    res = env.run({'matmul': lambda: A @ A, 'add': lambda: A + A, 'sub': lambda: A - A}[op])
+    env.goal('no_exception', b_not(res.raised))
+    if res.value is None:
+        return
+    R = res.value
+    if op == 'matmul':
+        want = coefvec(N, product_terms(ta, ta))
+        ok = isinstance(R, (M.pa.Pauli, M.pa.PauliPolynomial))
+        env.goal('result_type', ok)
+        if ok:
+            vec_eq(env, 'square', vec_of(R, N, M), want)
+    else:
+        want = {s: (cadd(va[s], va[s]) if op == 'add' else (0, 0)) for s in va}
+        reduced_goals(env, 'result', R, want, N, M)
+    env.goal('operand_unchanged', AND(b_and(arr_eq(x, y), eq(q, r)) for (x, q, _), (y, r) in zip(ta, _terms_now(A, M))))
+
+
+def _terms_now(A, M):
+    if isinstance(A, M.pa.PauliList):
+        return [(A.gs[k], A.ps[k]) for k in range(A.gs.shape[0])]
+    return [(A.g, A.p)]
+
+
 def h_scalar(env, N, kind, ks, kc, op):
     M = Mods(env)
     A, ta = mk_operand(env, M, N, kind, 'a_', ks)
@@ -453,6 +488,11 @@ def jobs(tier):
                             ksa, ksb = [0] * len(ksa), ([20] if len(ksb) == 1 else [0, 20][:len(ksb)])
                         J.append(dict(harness=B, params=dict(N=N, op=op, ka=ka, kb=kb, ksa=ksa, ksb=ksb), timeout_s=900,
                                       cost=40 if heavy else 5, max_paths=20000))
+        for kind in KINDS:
+            for op in ('matmul', 'add', 'sub'):
+                J.append(dict(harness=('c15', 'h_self'), params=dict(N=N, kind=kind, op=op), timeout_s=600, max_paths=20000, cost=20))
+        if thorough or N == 1:
+            J.append(dict(harness=('c15', 'h_self'), params=dict(N=N, kind='PauliPolynomial', op='matmul', T=3), timeout_s=900, max_paths=20000, cost=60))
         for kind in KINDS + ('PauliList',):
             J.append(dict(harness=('c15', 'h_scalar'), params=dict(N=N, kind=kind, ks=[0, 20][:2 if kind in ('PauliPolynomial', 'PauliList') else 1], kc=0, op='unit')))
             if kind != 'PauliList':
